@@ -25,12 +25,15 @@ EXTENDS Writer, Json, IOUtils, TLC
 
 TraceLog == ndJsonDeserialize(IOEnv.TRACE)
 
-VARIABLE l          \* index of the next event to explain
-tvars == <<vars, l>>
+VARIABLES l,        \* index of the next event to explain
+          ackseen,  \* [Clients -> highest version whose ack(ok) EVENT has been consumed]
+          ackclose  \* ackseen at the close.start event: the writes acknowledged before Close was invoked
+tvars == <<vars, l, ackseen, ackclose>>
 
 Ev == TraceLog[l]
 IsEv(name) == l <= Len(TraceLog) /\ Ev.e = name
 Consume == l' = l + 1
+Keep == UNCHANGED <<ackseen, ackclose>>
 
 \* ---- client events --------------------------------------------------------
 T_Journaling ==
@@ -47,33 +50,46 @@ T_Ack ==
   /\ cpc[Ev.c] = "idle"
   /\ IF Ev.ok THEN acked[Ev.c] = Ev.v /\ cver[Ev.c] = Ev.v
               ELSE acked[Ev.c] < Ev.v        \* a refused call acknowledges nothing
-  /\ UNCHANGED vars
+  /\ ackseen' = IF Ev.ok THEN [ackseen EXCEPT ![Ev.c] = Ev.v] ELSE ackseen
+  /\ UNCHANGED <<vars, ackclose>>
+
+T_CloseStart ==
+  /\ IsEv("close.start") /\ Consume
+  /\ ackclose' = ackseen
+  /\ UNCHANGED <<vars, ackseen>>
 
 \* ---- writer commands (linearised in the writer goroutine) ----------------
-Fields == /\ Len(Drained.b) = Ev.nbuf /\ Len(Drained.s) = Ev.nshadow /\ mode = Ev.mode
+\* The event is emitted right after drainPending, but other goroutines can slip events in between the
+\* drain and the emission: entries whose "journaled" event precedes this event may have been enqueued
+\* after the drain. So the command drains SOME prefix of the queue (the logged buffer lengths pin which).
+Split == {k \in 0..Len(q) : TRUE}
+QQ(k) == SubSeq(q, 1, k)
+Rest(k) == SubSeq(q, k + 1, Len(q))
+FieldsK(k) == /\ Len(DrainedOf(QQ(k)).b) = Ev.nbuf /\ Len(DrainedOf(QQ(k)).s) = Ev.nshadow /\ mode = Ev.mode
 
 T_CmdFlush ==            \* cmdFlush / cmdSync
   /\ IsEv("cmd") /\ Ev.kind \in {"flush", "sync"} /\ Consume
-  /\ ~wclosed /\ Fields
-  /\ q' = <<>> /\ shadow' = Drained.s /\ file' = file \o Drained.b /\ buf' = <<>>
+  /\ ~wclosed
+  /\ \E k \in Split : FieldsK(k) /\
+        /\ q' = Rest(k) /\ shadow' = DrainedOf(QQ(k)).s /\ file' = file \o DrainedOf(QQ(k)).b /\ buf' = <<>>
   /\ UNCHANGED <<cpc, cver, memv, acked, mode, wclosed, wdead, ackpre, snap, apc, img, pend, nadmin, nflush, dev>>
 
 T_CmdNoop ==             \* cmdErr / cmdIsSnapshotActive: only the drain
   /\ IsEv("cmd") /\ Ev.kind \in {"err", "isactive"} /\ Consume
-  /\ Fields
-  /\ q' = <<>> /\ shadow' = Drained.s /\ buf' = Drained.b
+  /\ \E k \in Split : FieldsK(k) /\
+        /\ q' = Rest(k) /\ shadow' = DrainedOf(QQ(k)).s /\ buf' = DrainedOf(QQ(k)).b
   /\ UNCHANGED <<cpc, cver, memv, acked, mode, wclosed, wdead, ackpre, file, snap, apc, img, pend, nadmin, nflush, dev>>
 
 T_CmdBegin ==
   /\ IsEv("cmd") /\ Ev.kind = "begin" /\ Consume
-  /\ Fields
-  /\ IF mode
+  /\ \E k \in Split : FieldsK(k) /\
+     IF mode
      THEN \* refused: snapshot mode already active (overlapping snapshot + compaction requests)
-          /\ q' = <<>> /\ shadow' = Drained.s /\ buf' = Drained.b
+          /\ q' = Rest(k) /\ shadow' = DrainedOf(QQ(k)).s /\ buf' = DrainedOf(QQ(k)).b
           /\ UNCHANGED <<file, mode, apc, nadmin, dev>>
      ELSE /\ apc = "idle"
           /\ nadmin' = nadmin + 1
-          /\ q' = <<>> /\ file' = file \o Drained.b /\ buf' = <<>> /\ shadow' = <<>> /\ mode' = TRUE
+          /\ q' = Rest(k) /\ file' = file \o DrainedOf(QQ(k)).b /\ buf' = <<>> /\ shadow' = <<>> /\ mode' = TRUE
           /\ apc' = "begun"
           /\ dev' = IF InFlight THEN dev \cup {"gap"} ELSE dev
   /\ UNCHANGED <<cpc, cver, memv, acked, wclosed, wdead, ackpre, snap, img, pend, nflush>>
@@ -95,11 +111,11 @@ T_Renamed == IsEv("snap.renamed") /\ Consume /\ S_Rename
 
 T_CmdTruncate ==
   /\ IsEv("cmd") /\ Ev.kind = "truncate" /\ Consume
-  /\ Fields /\ S_Truncate
+  /\ \E k \in Split : FieldsK(k) /\ S_TruncateQ(QQ(k), Rest(k))
 
 T_CmdReplace ==
   /\ IsEv("cmd") /\ Ev.kind = "replace" /\ Consume
-  /\ Fields /\ R_Replace
+  /\ \E k \in Split : FieldsK(k) /\ R_ReplaceQ(QQ(k), Rest(k))
 
 T_PhaseInfo ==           \* events that only confirm a phase already taken
   /\ \/ IsEv("snap.truncated") /\ apc = "snap.truncated"
@@ -108,24 +124,24 @@ T_PhaseInfo ==           \* events that only confirm a phase already taken
      \/ IsEv("snap.ended") /\ apc = "idle"
      \/ IsEv("rw.ended") /\ apc = "idle"
      \/ IsEv("snap.reappended") \/ IsEv("rw.reappended")
-     \/ IsEv("close.start")
      \/ IsEv("close.done") /\ wdead
   /\ Consume
   /\ UNCHANGED vars
 
 T_CmdEndReappend ==
   /\ IsEv("cmd") /\ Ev.kind = "endreappend" /\ Consume
-  /\ Fields
-  /\ \/ A_End("snap") \/ A_End("rw")
+  /\ \E k \in Split : FieldsK(k) /\
+     \/ A_EndQ("snap", QQ(k), Rest(k)) \/ A_EndQ("rw", QQ(k), Rest(k))
      \/ \* error-path cleanup of a procedure that failed before truncating: leave snapshot mode, keep the log
         /\ mode /\ apc \in {"begun", "snap.begun", "snap.captured", "snap.renamed", "rw.begun", "rw.captured"}
-        /\ q' = <<>> /\ shadow' = <<>> /\ mode' = FALSE /\ file' = file \o Drained.b \o Drained.s /\ buf' = <<>>
+        /\ q' = Rest(k) /\ shadow' = <<>> /\ mode' = FALSE
+        /\ file' = file \o DrainedOf(QQ(k)).b \o DrainedOf(QQ(k)).s /\ buf' = <<>>
         /\ apc' = "idle"
         /\ UNCHANGED <<cpc, cver, memv, acked, wclosed, wdead, ackpre, snap, img, pend, nadmin, nflush, dev>>
 
 T_CmdClose ==
   /\ IsEv("cmd") /\ Ev.kind = "close" /\ Consume
-  /\ Fields /\ W_Close
+  /\ \E k \in Split : FieldsK(k) /\ W_CloseQ(QQ(k), Rest(k))
 
 \* ---- the end of the trace: what the restart read --------------------------
 T_Recovered ==
@@ -153,12 +169,13 @@ Silent ==
      \/ S_TickFlush \/ W_Dead
      \/ A_Capture("snap") \/ A_Capture("rw")
 
-TraceInit == Init /\ l = 1
+TraceInit == Init /\ l = 1 /\ ackseen = Zero /\ ackclose = Zero
 TraceNext ==
-  \/ T_Journaling \/ T_Journaled \/ T_Ack
-  \/ T_CmdFlush \/ T_CmdNoop \/ T_CmdBegin \/ T_PhaseBegin \/ T_Captured \/ T_Renamed
-  \/ T_CmdTruncate \/ T_CmdReplace \/ T_PhaseInfo \/ T_CmdEndReappend \/ T_CmdClose \/ T_Recovered
-  \/ Silent
+  \/ T_Ack \/ T_CloseStart
+  \/ (Keep /\ (\/ T_Journaling \/ T_Journaled
+               \/ T_CmdFlush \/ T_CmdNoop \/ T_CmdBegin \/ T_PhaseBegin \/ T_Captured \/ T_Renamed
+               \/ T_CmdTruncate \/ T_CmdReplace \/ T_PhaseInfo \/ T_CmdEndReappend \/ T_CmdClose \/ T_Recovered
+               \/ Silent))
 TraceSpec == TraceInit /\ [][TraceNext]_tvars
 
 \* acceptance: the high-water mark of explained events reaches the end of the trace
@@ -170,8 +187,10 @@ TraceAccepted ==
                                          ev |-> IF TLCGet(1) <= Len(TraceLog) THEN TraceLog[TLCGet(1)] ELSE [e |-> "eof"]])>>)
        /\ FALSE
 
-\* invariants re-stated for the trace (apc uses the extra value "begun")
-TInv_Conservation == Inv_Conservation
+\* Checked on complete explanations only (the end of the trace): TLC also visits dead-end branches of the
+\* explanation search, and an invariant violated there says nothing about the real execution.
+\* C14 on the real execution: every write whose acknowledgement was OBSERVED before Close was invoked
+\* is read back after the restart (unless the named gap deviation was exercised).
 TInv_NoAckedLoss ==
-  (l = Len(TraceLog) + 1 /\ wclosed) => (dev # {} \/ \A c \in Clients : Recover(snap, file)[c] >= ackpre[c])
+  (l = Len(TraceLog) + 1 /\ wclosed) => (dev # {} \/ \A c \in Clients : Recover(snap, file)[c] >= ackclose[c])
 =============================================================================
